@@ -260,7 +260,7 @@ fn oracle(c: &C12Case, info: &mut Case) -> Result<(), String> {
     for (si, st) in c.steps.iter().enumerate() {
         match st {
             Step::Op(op) => {
-                let out = apply(&cache, op, capacity).map_err(|e| format!("{e} (step {si})"))?;
+                let out = apply(&cache, op, None).map_err(|e| format!("{e} (step {si})"))?;
                 let (k, a, b) = op.range();
                 match out {
                     OpOutcome::PutOk => stored.entry(k).or_default().push((a, b)),
@@ -298,7 +298,7 @@ fn oracle(c: &C12Case, info: &mut Case) -> Result<(), String> {
                 info.label("damage:delete-while-open");
             },
             Step::Batch { threads, schedule } => {
-                let r = run_batch(&cache, capacity, threads, schedule, 99 + si as u64);
+                let r = run_batch(&cache, None, threads, schedule, 99 + si as u64);
                 if let Some(v) = r.violation {
                     return Err(format!("{v} (concurrent batch at step {si}, grants {:?})", r.trace));
                 }
